@@ -653,6 +653,98 @@ class IfaceExecutor(X.UnitsExecutor):
             return [(st, VInt(z3.Int(fresh_name("int_of_float"))))]
         return super().b_int(st, args, kwargs, node)
 
+    def e_Yield(self, n, st):
+        # Round 7: generators that yield images / tables (contract attribute `plain_yield`): the yielded values themselves are
+        # recorded (ctx.yielded); the C03 observation (unit number, text) only exists for units
+        if getattr(self.contract, "plain_yield", False) and n.value is not None:
+            out = []
+            chk = getattr(self.contract, "yield_check", None)
+            for (s, v) in self.ev(n.value, st):
+                s.yielded = s.yielded + [v]
+                if chk is not None and self.inline_depth == 0:
+                    goal, note = chk(self, s, v)
+                    self.add_vc("yields", getattr(self.contract, "yield_label", "element-kind"), s.pc, goal, note=note, loc=self.loc(n))
+                out.append((s, NONE))
+            return out
+        return super().e_Yield(n, st)
+
+    def e_YieldFrom(self, n, st):
+        if getattr(self.contract, "plain_yield", False):
+            out = []
+            for (s, v) in self.ev(n.value, st):
+                items = self.concrete_items(s, v)
+                if items is None:
+                    raise Unsupported(f"{self.loc(n)} yield from a symbolic iterable")
+                s.yielded = s.yielded + list(items)
+                chk = getattr(self.contract, "yield_check", None)
+                for v in items:
+                    if chk is not None and self.inline_depth == 0:
+                        goal, note = chk(self, s, v)
+                        self.add_vc("yields", getattr(self.contract, "yield_label", "element-kind"), s.pc, goal, note=note, loc=self.loc(n))
+                out.append((s, NONE))
+            return out
+        return super().e_YieldFrom(n, st)
+
+    def seq_view(self, st, it):
+        # iterating a dict value of a well-typed field = iterating its keys (same model as PyDict.keys(), install_pydict)
+        if isinstance(it, VExt) and it.sort == "PyDict":
+            dlen = fun("dict_len", ext_sort("PyDict"), I)
+            key_at = fun("dict_key_at", ext_sort("PyDict"), I, ext_sort("PyKey"))
+            st.assume(dlen(it.t) >= 0)
+            return dlen(it.t), (lambda k, t=it.t: VExt("PyKey", key_at(t, k)))
+        return super().seq_view(st, it)
+
+    # ---------------------------------------------- lists of rows in loops --
+    def _is_row_value(self, st, v):
+        if isinstance(v, VSeq) and not v.is_bytes:
+            return True
+        return isinstance(v, VRef) and st.heap.get(v.ref) is not None and st.obj(v.ref).kind in ("alist", "list") and \
+            (st.obj(v.ref).kind == "alist" or st.obj(v.ref).data is not None)
+
+    def _row_list_refs(self, st):
+        """Heap lists whose every element is itself a list-like value (a table under construction: `rows = [headers]`)."""
+        out = set()
+        for ref, o in st.heap.items():
+            if o.kind == "list" and o.data and all(self._is_row_value(st, x) for x in o.data):
+                out.add(ref)
+            elif o.kind == "list" and o.data == [] and getattr(self.contract, "row_lists", False) and self.inline_depth == 0:
+                out.add(ref)          # the function under contract builds a table: an empty list is a table without rows yet
+            elif o.kind == "alist" and o.data.ekind == "row":
+                out.add(ref)
+        return out
+
+    def havoc_loop_state(self, st, body, spec, extra_names=()):
+        """Round 7: a list of rows mutated by the loop is havocked to a fresh sequence of ROWS (symbolic length each), not to a
+        sequence of unknown elements, so that a loop invariant can speak about the row lengths (XlsSheet.get_table)."""
+        rows_before = self._row_list_refs(st)
+        r = super().havoc_loop_state(st, body, spec, extra_names)
+        for ref in rows_before:
+            o = st.heap.get(ref)
+            if o is not None and o.kind == "alist" and o.data.ekind == "unk":
+                n = z3.Int(fresh_name("rows.len"))
+                rl = z3.Const(fresh_name("rows.rowlen"), AI)
+                st.assume(n >= 0)
+                sq = VSeq(n, lambda k, rl=rl: VSeq(clamp(z3.Select(rl, k)), lambda j: VUnk("cell"), "unk", tag=("row", "havoc", "")), "row")
+                st.heap[ref] = HeapObj("alist", sq, None, o.fresh)
+        return r
+
+    def alist_method(self, st, obj, name, args, kwargs, node):
+        o = st.obj(obj.ref)
+        if name == "append" and o.kind == "alist" and o.data.ekind == "row" and len(args) == 1:
+            view = self._list_view(st, args[0])
+            if view is not None:
+                sq = o.data
+                n0, old, ln = sq.length, sq.elem, view[0]
+
+                def row(k, n0=n0, old=old, ln=ln):
+                    prev = old(k)
+                    pl = prev.length if isinstance(prev, VSeq) else z3.Int(fresh_name("rowlen"))
+                    return VSeq(z3.If(k == n0, ln, pl), lambda j: VUnk("cell"), "unk", tag=("row", "append", ""))
+                self.note_store(st, obj.ref, node)
+                st.heap[obj.ref] = HeapObj("alist", VSeq(z3.simplify(n0 + 1), row, "row"), None, o.fresh)
+                return [(st, NONE)]
+        return super().alist_method(st, obj, name, args, kwargs, node)
+
     def _list_view(self, st, v):
         """(length term, elem(k)) of a list-like value (concrete list, abstract list, symbolic sequence), else None."""
         if isinstance(v, VRef):
